@@ -68,19 +68,25 @@ theorem extendChildren_eq_children (cs : Classes) (h : Heap) (hw : heapWF cs h =
       | dict c es =>
         simp only [cellOK, Bool.and_eq_true, List.all_eq_true, beq_iff_eq] at hwo
         obtain ⟨⟨hd, hreg⟩, hes⟩ := hwo
-        unfold extendChildren
-        simp only [hcn, Obj.cls, keysH, hd, if_true, getH, hreg, keysOf, ho, children]
-        have hk : (KeysH.dictKeys == KeysH.objKeys) = false := by decide
         have hne : (("" : String) != "") = false := by decide
-        simp only [hk, Bool.false_and, Bool.false_eq_true, if_false, hne]
-        apply filterMap_map_pairs (f := fun k => k)
-        intro e he
-        obtain ⟨hh, hl⟩ := hes e he
-        unfold applyGet
-        simp only [hcn, Obj.cls]
-        by_cases hb : (isA cs c "RDict" && isBad e.1) = true
-        · simp [hb]
-        · simp only [hb, Bool.false_eq_true, if_false, pyGetitem, ho, hh, if_true, hl]
+        by_cases hdict : isA cs c "dict" = true
+        · unfold extendChildren
+          simp only [hcn, Obj.cls, keysH, hdict, if_true, getH, hreg, keysOf, ho, children]
+          have hk : (KeysH.dictKeys == KeysH.objKeys) = false := by decide
+          simp only [hk, Bool.false_and, Bool.false_eq_true, if_false, hne]
+          apply filterMap_map_pairs (f := fun k => k)
+          intro e he
+          obtain ⟨hh, hl⟩ := hes e he
+          unfold applyGet
+          simp only [hcn, Obj.cls]
+          by_cases hb : (isA cs c "RDict" && isBad e.1) = true
+          · simp [hb]
+          · simp only [hb, Bool.false_eq_true, if_false, pyGetitem, ho, hh, if_true, hl]
+        · -- a mapping type that is not registered as one: iterated, it yields its keys
+          simp only [hdict, Bool.false_eq_true, Bool.false_or, Bool.and_eq_true, Bool.not_eq_true'] at hd
+          obtain ⟨⟨⟨⟨⟨hit, hnd⟩, _⟩, _⟩, _⟩, _⟩ := hd
+          unfold extendChildren
+          simp [hcn, Obj.cls, keysH, hdict, hnd, iterH, hreg, hit, iterItems, ho, children]
       | list c xs =>
         simp only [cellOK, Bool.and_eq_true, Bool.not_eq_true'] at hwo
         obtain ⟨⟨hl, hnd⟩, hreg⟩ := hwo
@@ -111,31 +117,39 @@ theorem extendChildren_eq_children (cs : Classes) (h : Heap) (hw : heapWF cs h =
         · simp only [hd, if_true, hg, Bool.and_true, beq_self_eq_true, iterItems, ho, children]
         · simp only [hd, Bool.false_eq_true, if_false, iterItems, ho, children]
       | inst c as =>
-        simp only [cellOK, Bool.and_eq_true, Bool.not_eq_true', List.all_eq_true, beq_iff_eq] at hwo
+        simp only [cellOK, Bool.and_eq_true, Bool.not_eq_true', List.all_eq_true, beq_iff_eq, Bool.or_eq_true] at hwo
         obtain ⟨⟨⟨⟨⟨⟨⟨⟨hhd, hreg⟩, hnd⟩, hnl⟩, hnt⟩, hns⟩, hnf⟩, has⟩, _hdn⟩ := hwo
         have hne : (((clsInfo cs c).reg) != "") = false := by rw [hreg]; decide
         have hng : seqGuard.any (isA cs c) = false := by
           simp [seqGuard, hnl, hnt, hns, hnf]
-        unfold extendChildren
-        simp only [hcn, Obj.cls, keysH, hnd, Bool.false_eq_true, if_false, hhd, if_true, getH, hne, hnl, hnt,
-          Bool.or_self, keysOf, ho, children, hng, Bool.and_false]
-        apply filterMap_map_pairs (f := fun n => Val.str n)
-        intro p hp
-        have hf := has p hp
-        unfold applyGet
-        simp only [hcn, Obj.cls]
-        by_cases hb : (isA cs c "RObj" && isBad (Val.str p.1)) = true
-        · simp [hb]
-        · simp only [hb, Bool.false_eq_true, if_false, pyGetattr, ho]
-          cases hfind : as.find? (fun x => x.1 == p.1) with
-          | none => rw [hfind] at hf; simp at hf
-          | some q =>
-            rw [hfind] at hf
-            simp only [Option.map_some, Option.some.injEq] at hf
-            obtain ⟨qn, qv⟩ := q
-            simp only at hf
-            subst hf
-            rfl
+        by_cases hdd : (clsInfo cs c).hasDict = true
+        · unfold extendChildren
+          simp only [hcn, Obj.cls, keysH, hnd, Bool.false_eq_true, if_false, hdd, if_true, getH, hne, hnl, hnt,
+            Bool.or_self, keysOf, ho, children, hng, Bool.and_false]
+          apply filterMap_map_pairs (f := fun n => Val.str n)
+          intro p hp
+          have hf := has p hp
+          unfold applyGet
+          simp only [hcn, Obj.cls]
+          by_cases hb : (isA cs c "RObj" && isBad (Val.str p.1)) = true
+          · simp [hb]
+          · simp only [hb, Bool.false_eq_true, if_false, pyGetattr, ho]
+            cases hfind : as.find? (fun x => x.1 == p.1) with
+            | none => rw [hfind] at hf; simp at hf
+            | some q =>
+              rw [hfind] at hf
+              simp only [Option.map_some, Option.some.injEq] at hf
+              obtain ⟨qn, qv⟩ := q
+              simp only at hf
+              subst hf
+              rfl
+        · -- `__slots__` only: no `__dict__`, not iterable — no children
+          have hni : (clsInfo cs c).iterable = false := by
+            rcases hhd with h1 | h1
+            · exact absurd h1 hdd
+            · simpa using h1
+          unfold extendChildren
+          simp [hcn, Obj.cls, keysH, hnd, hdd, iterH, hreg, hnl, hnt, hni, children, ho]
   | _ =>
     rw [extendChildren_scalar cs h hc _ (fun a e => by cases e),
       children_scalar cs h _ (fun a e => by cases e)]
@@ -316,7 +330,7 @@ theorem ssLoop_structure (cs : Classes) (h : Heap) (nxt : List Val) (i : Nat) (s
 /-- the ops `_t_eval` knows among access steps and wildcards -/
 def wfOps : List (String × Val) → Bool
   | [] => true
-  | (op, _) :: r => (op == "." || op == "[" || op == "P" || op == "x" || op == "X") && wfOps r
+  | (op, _) :: r => (op == "." || op == "[" || op == "P" || op == "+" || op == "x" || op == "X") && wfOps r
 
 theorem accessStep_eq (cs : Classes) (h : Heap) (op : String) (cur arg : Val) :
     accessStep cs h op cur arg =
@@ -331,7 +345,9 @@ theorem accessStep_eq (cs : Classes) (h : Heap) (op : String) (cur arg : Val) :
     · simp only [h1, h2, if_true, Bool.false_eq_true, if_false]; rfl
     · by_cases h3 : (op == "P") = true
       · simp only [h1, h2, h3, if_true, Bool.false_eq_true, if_false]; rfl
-      · simp only [h1, h2, h3, Bool.false_eq_true, if_false]
+      · by_cases h4 : (op == "+") = true
+        · simp only [h1, h2, h3, h4, if_true, Bool.false_eq_true, if_false]; rfl
+        · simp only [h1, h2, h3, h4, Bool.false_eq_true, if_false]
 
 def isPaeOrOk : Except EErr Res → Bool
   | .ok _ => true
@@ -404,10 +420,12 @@ theorem evalSteps_eq_refEval (cs : Classes) (h : Heap)
         have hacc : (refAccess cs h op cur arg).isSome = true := by
           unfold refAccess
           simp only [Bool.or_eq_true] at hop
-          rcases hop with (((h1 | h1) | h1) | h1) | h1
+          rcases hop with ((((h1 | h1) | h1) | h1) | h1) | h1
           · simp [h1]
           · by_cases h0 : (op == ".") = true <;> simp [h0, h1]
           · by_cases h0 : (op == ".") = true <;> by_cases h2 : (op == "[") = true <;> simp [h0, h2, h1]
+          · by_cases h0 : (op == ".") = true <;> by_cases h2 : (op == "[") = true <;>
+              by_cases h3 : (op == "P") = true <;> simp [h0, h2, h3, h1]
           · exact absurd h1 hx
           · exact absurd h1 hX
         cases hr : refAccess cs h op cur arg with
@@ -1414,5 +1432,67 @@ theorem wfOps_all_P : ∀ steps : List (String × Val), steps.all (fun s => s.1 
     simp only at h
     simp only [wfOps, ih h.2, h.1, Bool.and_true]
     decide
+
+/-! ### unfoldings (definitional) -/
+
+/-- the shape of that evaluation at a `*` step, spelled out -/
+theorem refEval_star_step (cs : Classes) (h : Heap) (arg : Val) (rest : List (String × Val)) (cur : Val) :
+    refEval cs h (("x", arg) :: rest) cur =
+      .ok (.list (keepOk ((children cs h cur).map (refEval cs h rest)))) := by
+  simp [refEval]
+
+theorem refEval_starstar_step (cs : Classes) (h : Heap) (arg : Val) (rest : List (String × Val)) (cur : Val) :
+    refEval cs h (("X", arg) :: rest) cur =
+      .ok (.list (keepOk ((descend cs h cur).map (refEval cs h rest)))) := by
+  simp [refEval]
+
+/-- without the flag `_del_one` is the plain deletion -/
+theorem delOp_false (cs : Classes) (op : String) (h : Heap) (d key : Val) :
+    delOp cs op false h d key = delRaw cs op h d key := by
+  unfold delOp
+  cases delRaw cs op h d key with
+  | ok h' => rfl
+  | error e => cases e <;> rfl
+
+
+theorem part_stars (seg : List Char) (ps : List Glom.C01.Part) :
+    stars (Glom.C01.stepsOfParts
+      ((if seg = ['*'] then Glom.C01.Part.t [("x", Val.none)]
+        else if seg = ['*', '*'] then Glom.C01.Part.t [("X", Val.none)]
+        else Glom.C01.Part.seg (Val.str (String.ofList seg))) :: ps)) =
+      (if (decide (seg = ['*']) || decide (seg = ['*', '*'])) = true then 1 else 0) +
+        stars (Glom.C01.stepsOfParts ps) := by
+  by_cases h1 : seg = ['*']
+  · rw [if_pos h1]
+    have : (decide (seg = ['*']) || decide (seg = ['*', '*'])) = true := by simp [h1]
+    rw [if_pos this]
+    simp only [Glom.C01.stepsOfParts, List.cons_append, List.nil_append, stars_cons]
+    simp
+  · rw [if_neg h1]
+    by_cases h2 : seg = ['*', '*']
+    · rw [if_pos h2]
+      have : (decide (seg = ['*']) || decide (seg = ['*', '*'])) = true := by simp [h2]
+      rw [if_pos this]
+      simp only [Glom.C01.stepsOfParts, List.cons_append, List.nil_append, stars_cons]
+      simp
+    · rw [if_neg h2]
+      have : (decide (seg = ['*']) || decide (seg = ['*', '*'])) = false := by simp [h1, h2]
+      rw [this]
+      simp only [Glom.C01.stepsOfParts, stars_cons]
+      simp
+
+theorem stars_stepsOfText_on (text : String) :
+    stars (stepsOfText true text) =
+      ((Glom.C01.splitDot text.toList).filter (fun seg => seg = ['*'] || seg = ['*', '*'])).length := by
+  unfold stepsOfText partsOfTextMode Glom.C01.partsOfText
+  simp only [if_true]
+  generalize Glom.C01.splitDot text.toList = segs
+  induction segs with
+  | nil => rfl
+  | cons seg r ih =>
+    rw [List.map_cons, part_stars, ih, List.filter_cons]
+    by_cases hw : (decide (seg = ['*']) || decide (seg = ['*', '*'])) = true
+    · rw [if_pos hw, if_pos hw, List.length_cons]; omega
+    · rw [if_neg hw, if_neg hw]; omega
 
 end Glom.C14
